@@ -147,6 +147,19 @@ w_backtrack(N, R) :-
 w_sccthrow(N, R) :-
     catch(setup_call_cleanup(true, (w_list(N, _), throw(w_ball(N))), w_list(N, _)), w_ball(M), R = caught(M)).
 
+% a failed copy must leave its source term as it was: the handler compares the source with a
+% term built the same way and re-throws the error only if they are still identical
+w_copyguard(N, R) :-
+    w_guard_term(N, T),
+    catch(( copy_term(T, C), findall(T, member(_, [1,2]), Cs) ),
+          error(Formal, Ctx),
+          ( w_guard_term(N, T2), ( T == T2 -> throw(error(Formal, Ctx)) ; throw(source_term_damaged) ) )),
+    C = t(Vs, _, _), length(Vs, L1), length(Cs, L2), R = L1-L2.
+% (ground, so that two terms built the same way are identical)
+w_guard_term(N, t(Vs, S, Ps)) :-
+    S = "shared string of the guard term", numlist(1, N, Ns), maplist(w_guard_pair(S), Ns, Vs, Ps).
+w_guard_pair(S, I, v(I), p(I, v(I), S, f(v(I), [I|S]))).
+
 w_chars(N, R) :-
     numlist(1, N, L),
     maplist(w_num_chars, L, Css), append(Css, All), length(All, Len),
